@@ -165,7 +165,7 @@ def run(ctx, rep):
                         rep.ob("N1", False, s.node, f, witness="symbols are tokenised outside the filtering generator: [nop] is visible here",
                                nontrivial=True)
     if n_cons < 3:
-        raise AnalysisError("expected >= 3 symbol consumers (main loop, drain loop, index reader); found %d" % n_cons)
+        rep.floor_failures.append("expected >= 3 symbol consumers (main loop, drain loop, index reader); found %d" % n_cons)
     # ---- N1 (c): every yield of G is dominated by the negated [nop] test
     for g in sorted(gfuncs, key=lambda x: x.qual):
         nd = NopDom(g, SPEC.NOP)
